@@ -36,6 +36,7 @@ type Profile struct {
 	PoryKeys                                                                                       []string
 	TextPool                                                                                       []string
 	MultiTokenCases                                                                                bool
+	PFallback                                                                                      float64 // probability that a poryswitch has a `_` case (default 0.5)
 }
 
 // Gen is a generator instance for one program.
@@ -574,7 +575,7 @@ func (g *Gen) poryStmt(contOK bool) *PorySwitch {
 	g.R.Shuffle(len(names), func(i, j int) { names[i], names[j] = names[j], names[i] })
 	n := 1 + g.R.IntN(3)
 	cs := names[:n]
-	if g.R.IntN(2) == 0 {
+	if g.chance(g.pFallback()) {
 		cs = append(append([]string{}, cs...), "_")
 		g.R.Shuffle(len(cs), func(i, j int) { cs[i], cs[j] = cs[j], cs[i] })
 	}
@@ -644,4 +645,180 @@ func max(a, b int) int {
 		return a
 	}
 	return b
+}
+
+// ---------------------------------------------------------------------------
+// Top-level items other than scripts
+
+// TextStmt generates a `text` statement (optionally with a poryswitch).
+func (g *Gen) TextStmt() *TextItem {
+	t := &TextItem{ID: g.Prog.NewID(), Name: g.Name("Txt")}
+	if g.R.IntN(3) == 0 {
+		t.Scope = 1 + g.R.IntN(2)
+	}
+	if len(g.P.PoryKeys) > 0 && g.R.IntN(3) == 0 {
+		ps := &PSText{Key: g.P.PoryKeys[g.R.IntN(len(g.P.PoryKeys))]}
+		for _, nm := range g.psCaseNames() {
+			ps.Cases = append(ps.Cases, &PSTextCase{Name: nm, Brace: g.R.IntN(2) == 0, Val: g.Text()})
+		}
+		t.PS = ps
+	} else {
+		t.Val = g.Text()
+	}
+	return t
+}
+
+func (g *Gen) psCaseNames() []string {
+	names := []string{"RUBY", "SAPPHIRE", "EMERALD", "1", "2"}
+	g.R.Shuffle(len(names), func(i, j int) { names[i], names[j] = names[j], names[i] })
+	cs := append([]string{}, names[:1+g.R.IntN(3)]...)
+	if g.chance(g.pFallback()) {
+		cs = append(cs, "_")
+		g.R.Shuffle(len(cs), func(i, j int) { cs[i], cs[j] = cs[j], cs[i] })
+	}
+	return cs
+}
+
+// ListWithPory generates a step/item list, possibly with nested poryswitches.
+func (g *Gen) ListWithPory(maxLen int, movement bool, depth int) []*ListElem {
+	es := []*ListElem{}
+	n := g.R.IntN(maxLen + 1)
+	for i := 0; i < n; i++ {
+		if len(g.P.PoryKeys) > 0 && depth < 2 && g.R.IntN(6) == 0 {
+			ps := &PSList{Key: g.P.PoryKeys[g.R.IntN(len(g.P.PoryKeys))]}
+			for _, nm := range g.psCaseNames() {
+				c := &PSListCase{Name: nm, Brace: g.R.IntN(2) == 0}
+				if c.Brace {
+					c.Elems = g.ListWithPory(3, movement, depth+1)
+				} else {
+					// colon form holds exactly one element
+					for len(c.Elems) != 1 {
+						c.Elems = g.ListWithPory(1, movement, 2)
+					}
+					c.Elems[0].Comma = false
+				}
+				ps.Cases = append(ps.Cases, c)
+			}
+			es = append(es, &ListElem{ID: g.Prog.NewID(), PS: ps})
+			continue
+		}
+		e := &ListElem{ID: g.Prog.NewID()}
+		if movement {
+			e.Name = stepPool[g.R.IntN(len(stepPool))]
+			if g.R.IntN(15) == 0 {
+				e.Name = "step_end"
+			}
+			if g.R.IntN(4) == 0 {
+				e.Mult = []string{"1", "2", "3", "0x2", "5", "9"}[g.R.IntN(6)]
+			}
+			e.Comma = g.R.IntN(4) == 0
+		} else {
+			e.Name = []string{"ITEM_POTION", "ITEM_POKE_BALL", "ITEM_RARE_CANDY", "ITEM_LEMONADE", "ITEM_NONE", "ITEM_X"}[g.R.IntN(6)]
+			if e.Name == "ITEM_NONE" && g.R.IntN(3) != 0 {
+				e.Name = "ITEM_REPEL"
+			}
+		}
+		es = append(es, e)
+	}
+	return es
+}
+
+// MovementStmt generates a movement statement.
+func (g *Gen) MovementStmt() *MovementItem {
+	m := &MovementItem{ID: g.Prog.NewID(), Name: g.Name("Mov")}
+	if g.R.IntN(3) == 0 {
+		m.Scope = 1 + g.R.IntN(2)
+	}
+	m.Steps = g.ListWithPory(6, true, 0)
+	return m
+}
+
+// MartStmt generates a mart statement.
+func (g *Gen) MartStmt() *MartItem {
+	m := &MartItem{ID: g.Prog.NewID(), Name: g.Name("Mart")}
+	if g.R.IntN(3) == 0 {
+		m.Scope = 1 + g.R.IntN(2)
+	}
+	m.Items = g.ListWithPory(6, false, 0)
+	return m
+}
+
+var mapScriptTypes = []string{"MAP_SCRIPT_ON_LOAD", "MAP_SCRIPT_ON_TRANSITION", "MAP_SCRIPT_ON_RESUME", "MAP_SCRIPT_ON_FRAME_TABLE", "MAP_SCRIPT_ON_WARP_INTO_MAP_TABLE", "MAP_SCRIPT_ON_DIVE_WARP", "MAP_SCRIPT_ON_RETURN_TO_FIELD", "MAP_SCRIPT_X"}
+
+// MapScriptsStmt generates a mapscripts statement.
+func (g *Gen) MapScriptsStmt() *MapScripts {
+	m := &MapScripts{ID: g.Prog.NewID(), Name: g.Name("Map")}
+	if g.R.IntN(3) == 0 {
+		m.Scope = 1 + g.R.IntN(2)
+	}
+	types := append([]string{}, mapScriptTypes...)
+	g.R.Shuffle(len(types), func(i, j int) { types[i], types[j] = types[j], types[i] })
+	n := g.R.IntN(6)
+	for i := 0; i < n; i++ {
+		e := &MSEntry{ID: g.Prog.NewID(), Type: types[i], Kind: g.R.IntN(3)}
+		switch e.Kind {
+		case 0:
+			e.Label = g.Name("Target")
+		case 1:
+			e.Body = g.ScriptBody(m.Name + "_" + e.Type)
+		case 2:
+			rows := g.R.IntN(5)
+			for j := 0; j < rows; j++ {
+				r := &MSRow{ID: g.Prog.NewID(), Var: []string{g.Name("VAR_T")}, Value: []string{strconv.Itoa(g.R.IntN(5))}}
+				if g.R.IntN(5) == 0 {
+					r.Value = []string{g.Name("VAL_"), "+", "1"}
+				}
+				if g.R.IntN(2) == 0 {
+					r.Body = g.ScriptBody(fmt.Sprintf("%s_%s_%d", m.Name, e.Type, j))
+				} else {
+					r.Label = g.Name("Target")
+				}
+				e.Rows = append(e.Rows, r)
+			}
+		}
+		m.Entries = append(m.Entries, e)
+	}
+	return m
+}
+
+// RawStmt generates a raw statement that defines its own data label.
+func (g *Gen) RawStmt() *Raw {
+	r := &Raw{ID: g.Prog.NewID(), TickSame: g.R.IntN(2) == 0}
+	lbl := g.Name("RawData")
+	r.Lines = []string{"", lbl + ":", "\t.byte " + strconv.Itoa(g.R.IntN(9)), "\t.4byte " + lbl}
+	if g.R.IntN(3) == 0 {
+		r.Lines = []string{lbl + "::", "    .string \"raw text$\""}
+	}
+	return r
+}
+
+// FullProgram generates a file with a random mix of top-level statements.
+func (g *Gen) FullProgram(nItems int) *Program {
+	for i := 0; i < nItems; i++ {
+		switch k := g.R.IntN(12); {
+		case k < 5:
+			g.Prog.Items = append(g.Prog.Items, g.Script())
+		case k < 7:
+			g.Prog.Items = append(g.Prog.Items, g.TextStmt())
+		case k < 8:
+			g.Prog.Items = append(g.Prog.Items, g.MovementStmt())
+		case k < 9:
+			g.Prog.Items = append(g.Prog.Items, g.MartStmt())
+		case k < 11:
+			g.Prog.Items = append(g.Prog.Items, g.MapScriptsStmt())
+		default:
+			g.Prog.Items = append(g.Prog.Items, g.RawStmt())
+		}
+	}
+	for _, key := range g.P.PoryKeys {
+		g.Prog.Switches[key] = []string{"RUBY", "SAPPHIRE", "EMERALD", "1", "2", "OTHER"}[g.R.IntN(6)]
+	}
+	return g.Prog
+}
+
+func (g *Gen) pFallback() float64 {
+	if g.P.PFallback == 0 {
+		return 0.5
+	}
+	return g.P.PFallback
 }
